@@ -3,6 +3,8 @@ alignBoundariesAcrossTiers is exercised through the Textgrid harness, see props/
 from framework import Failure
 import tiers as T
 import tierops
+import tgops
+import dispatch
 
 RULE = ("random interval/point tiers x reference tiers (interval or point) built by jittering the tier's own boundaries by "
         "0, +-maxDiff/2, exactly +-maxDiff, +-1.5 maxDiff, or unrelated; equidistant candidates; maxDiff in {1/64.., 0.001..0.5}; "
@@ -16,9 +18,9 @@ ASSUMPTIONS = ["a timestamp whose distance to the nearest reference time is with
 
 case_json = lambda c: c
 case_from_json = lambda j: j
-encode = tierops.encode
-impl = tierops.impl
-render = tierops.render
+encode = dispatch.encode
+impl = dispatch.impl
+render = dispatch.render
 
 
 def wants_x(c):
@@ -47,6 +49,8 @@ def check_time(x, y, refs, md):
 
 
 def oracle(c, r):
+    if dispatch.is_tg(c):
+        return tgops.oracle(c, r)
     op, t = c["op"], c["tier"]
     sig = {"op": op}
     if op in ("idejitter", "pdejitter"):
@@ -114,6 +118,8 @@ def oracle(c, r):
 
 
 def tags(c, r):
+    if dispatch.is_tg(c):
+        return [c['op'], 'grid' if c.get('grid') else 'dec'] + (['err:' + r[1]] if r[0] == 'err' else [])
     out = [c["op"], "grid" if c.get("grid") else "dec"]
     if r[0] == "err":
         out.append("err:" + r[1])
@@ -128,6 +134,8 @@ def tags(c, r):
 
 
 def nontrivial(c, r):
+    if dispatch.is_tg(c):
+        return r[0] != 'ok' or r[1] != tgops.norm(c['tg'])
     if r[0] != "ok":
         return True
     if c["op"] == "imorph":
@@ -180,6 +188,24 @@ def jitter_ref(rnd, t, md, domain):
 
 
 def gen(rnd, tier):
+    yield from gen_tier_level(rnd, tier)
+    for i in range(20000 if tier == "thorough" else 2000):
+        domain = rnd.choice(["dec", "dec", "grid64"])
+        g = tgops.gen_tg(rnd, domain, ntiers=rnd.randint(2, 3))
+        md = rnd.choice([1 / 64, 1 / 16, 0.25]) if domain != "dec" else rnd.choice([0.001, 0.01, 0.05, 0.1])
+        # make the first tier a jittered copy of the boundaries of the others, and use it as the reference
+        src = {"k": "P", "name": "s", "es": [[x, ""] for x in sorted({x for t in g["tiers"][1:] for e in t["es"] for x in e[:-1]})], "lo": 0.0, "hi": 10.0}
+        ref = jitter_ref(rnd, src, md, domain)
+        ref = dict(ref, name=g["tiers"][0]["name"], lo=0.0, hi=max(ref["hi"], 10.0))
+        top = max(ref["hi"], g["hi"])
+        g = dict(g, hi=top, tiers=[dict(ref, hi=top)] + [dict(t, hi=top) for t in g["tiers"][1:]])
+        c = {"op": "tg_align", "tg": g, "name": ref["name"], "maxdiff": md, "grid": domain != "dec"}
+        if not ref["es"]:
+            c["anyerr"] = True
+        yield c
+
+
+def gen_tier_level(rnd, tier):
     n = 60000 if tier == "thorough" else 8000
     for i in range(n):
         domain = rnd.choice(["dec", "dec", "grid64"])
@@ -207,6 +233,4 @@ def gen(rnd, tier):
             yield c
 
 
-def shrink(c):
-    for s in T.shrink_spec(c["tier"]):
-        yield dict(c, tier=s)
+shrink = dispatch.shrink
